@@ -514,6 +514,10 @@ func genUnifyCase(t *rapid.T) *UnifyCase {
 			case 3:
 				return model.Map(model.Str, v)
 			case 4:
+				if rapid.Bool().Draw(t, "varfirst") {
+					// the variable in a field that is not the last one declared
+					return model.Obj(model.Field{Name: "p", T: v}, model.Field{Name: "q", T: model.Num})
+				}
 				return model.Obj(model.Field{Name: "p", T: model.Num}, model.Field{Name: "q", T: v})
 			case 5:
 				return model.Fun("f", []*model.Type{v}, model.Num)
@@ -656,7 +660,7 @@ func enumTypes(withBot bool) []*model.Type {
 }
 
 func TestC17(t *testing.T) {
-	R.Rule = "pairs (x,y[,z]) of types over num/str/bool/time, variables a,b,c (repeated), list, map, object (permuted field orders), optional, function, argument tuple outermost; built both with fresh nodes and with shared sub-terms; exhaustive over all types of depth<=2/width<=2 over {num,str,'a,'b}; systems of 2-5 equations over one variable pool (chains, aliases, cycles closed through k bindings, either side, every meeting order), exhaustively for 3 variables with right sides among {a,b,c,list[a],list[b],list[c],num}; non-trivial = repeated variable inside a container, or model-equal types with different field order, or an occurs-check pair, or shared sub-terms of depth>1"
+	R.Rule = "pairs (x,y[,z]) of types over num/str/bool/time, variables a,b,c (repeated), list, map, object (permuted field orders), optional, function, argument tuple outermost; built both with fresh nodes and with shared sub-terms; exhaustive over all types of depth<=2/width<=2 over {num,str,'a,'b}; systems of 2-5 equations over one variable pool (chains, aliases, cycles closed through k bindings, either side, every meeting order), exhaustively for 3 variables with right sides among {a,b,c,list[a],list[b],list[c],num,{p:a,q:num},{p:b,q:num},{p:c,q:num}}; non-trivial = repeated variable inside a container, or model-equal types with different field order, or an occurs-check pair, or shared sub-terms of depth>1"
 	R.Assume = []string{"model.Equal / refMatch (harness) define structural identity and instantiation", "⊥ only generated as container element; ⊤ not generated"}
 	reportKnown(t, "C17")
 	runRegress(t, "C17")
@@ -680,7 +684,11 @@ func TestC17(t *testing.T) {
 	})
 	// systems of three equations over the variables a, b, c: every choice of right-hand sides
 	// among {a, b, c, list[a], list[b], list[c], num} in every order of the equations
-	rhs := []*model.Type{model.Var("a"), model.Var("b"), model.Var("c"), model.List(model.Var("a")), model.List(model.Var("b")), model.List(model.Var("c")), model.Num}
+	objOf := func(v string) *model.Type {
+		return model.Obj(model.Field{Name: "p", T: model.Var(v)}, model.Field{Name: "q", T: model.Num})
+	}
+	rhs := []*model.Type{model.Var("a"), model.Var("b"), model.Var("c"), model.List(model.Var("a")), model.List(model.Var("b")), model.List(model.Var("c")), model.Num,
+		objOf("a"), objOf("b"), objOf("c")}
 	c17.Each(t, "systems-of-3", func(yield func(*UnifyCase) bool) {
 		vars := []*model.Type{model.Var("a"), model.Var("b"), model.Var("c")}
 		orders := [][]int{{0, 1, 2}, {0, 2, 1}, {1, 0, 2}, {1, 2, 0}, {2, 0, 1}, {2, 1, 0}}
